@@ -3,7 +3,7 @@
     lists survive `xargs -0`, and the push command publishes only a complete
     staging file. *)
 From Coq Require Import ZArith List Bool Lia.
-From Copia Require Import Model.ShellQuote.
+From Copia Require Import Gen.Constants Model.ShellQuote.
 Import ListNotations.
 Local Open Scope Z_scope.
 
@@ -44,4 +44,26 @@ Lemma xargs0_splits_at_nul : xargs0 (nul_list [[97; 0; 98]]) = [[97]; [98]].
 Proof. vm_compute. reflexivity. Qed.
 
 Lemma remote_push_iff size arrived : remote_push size arrived = true <-> Z.of_nat (length arrived) = size.
-Proof. unfold remote_push. apply Z.eqb_eq. Qed.
+Proof. unfold remote_push. change (PUSH_FILE_VERIFIES_COUNT =? 1) with true. cbv iota. apply Z.eqb_eq. Qed.
+
+(** ** The delete list of a push under a crash: only a list that arrived in full is acted upon *)
+Lemma remote_delete_prefix_lemma ps arrived rest :
+  Forall nul_free ps -> nul_list ps = arrived ++ rest ->
+  remote_delete (Z.of_nat (length (nul_list ps))) arrived = match rest with [] => ps | _ => [] end.
+Proof.
+  intros Hnf Heq. unfold remote_delete. change (PUSH_DELETE_VERIFIES_COUNT =? 1) with true. cbv iota. rewrite Heq, app_length.
+  destruct rest as [|c rest'].
+  - rewrite app_nil_r in *. rewrite Nat.add_0_r, Z.eqb_refl, <- Heq. apply xargs0_nul_list_lemma. exact Hnf.
+  - cbn [length]. destruct (Z.eqb_spec (Z.of_nat (length arrived)) (Z.of_nat (length arrived + S (length rest')))) as [E|E]; [lia|reflexivity].
+Qed.
+
+Lemma remote_delete_unchecked_counterexample :
+  let ps := [[97; 98]] in
+  Forall nul_free ps /\ nul_list ps = [97] ++ [98; 0] /\
+  In [97] (remote_delete_unchecked [97]) /\ ~ In [97] ps.
+Proof.
+  cbv zeta. split; [|split; [reflexivity|split]].
+  - constructor; [|constructor]. unfold nul_free. cbn. intros [H|[H|[]]]; discriminate.
+  - left. reflexivity.
+  - cbn. intros [H|[]]. discriminate.
+Qed.
